@@ -125,3 +125,125 @@ func VerifC05_NatsHandler() {
 	})
 	verifReach("end")
 }
+
+func init() {
+	verifHarnesses["VerifC05_FramedStream"] = VerifC05_FramedStream
+	verifHarnesses["VerifC05_NatsServerFrame"] = VerifC05_NatsServerFrame
+	verifHarnesses["VerifC05_SubscriberCallback"] = VerifC05_SubscriberCallback
+}
+
+// connection-oriented receiver: an arbitrary byte stream on the socket of the
+// adapter transport (any frame-size field, any cut): the read loop never panics
+// and the transport ends closed with exactly one close cause.
+func VerifC05_FramedStream() {
+	pipe := newVerifPipe()
+	ft := NewAdapterTransport(pipe)
+	verifAssert(ft.Open() == nil, "open")
+	closed := ft.Closed()
+	data := verifBuffer()
+	if len(data) > 0 {
+		pipe.feed(data)
+	}
+	pipe.hangUp(nil)
+	_, ok := <-closed // a reader that neither reports nor returns is a deadlock here
+	verifAssert(ok, "the end of the stream is reported")
+	verifAssert(!ft.IsOpen(), "the transport is closed")
+	verifReach("end")
+}
+
+// message-oriented server: an arbitrary NATS request is answered or discarded
+// without a panic, and the next well-formed request is served.
+func VerifC05_NatsServerFrame() {
+	hd := &verifPingHandler{outcome: verifOutcome(verifOutValue, 0)}
+	b := newVerifBroker()
+	srv := NewFNatsServerBuilder(&nats.Conn{}, verifPingProcessor(hd), NewFProtocolFactory(thrift.NewTBinaryProtocolFactoryDefault()), []string{"svc"}).Build().(*fNatsServer)
+	data := verifBuffer()
+	verifNoPanic("fNatsServer.processFrame panics", func() {
+		_ = srv.processFrame(&frameWrapper{frameBytes: data, reply: "r1", ephemeralProperties: map[interface{}]interface{}{}})
+	})
+	f := NewFContext("c")
+	good := prependFrameSize(verifRequestFrame(f, verifReqKnown, "a"))
+	verifAssert(srv.processFrame(&frameWrapper{frameBytes: good, reply: "r2", ephemeralProperties: map[interface{}]interface{}{}}) == nil, "a later well-formed request is processed")
+	verifAssert(verifReplyCount(b, "r2") == 1, "and answered")
+	verifReach("end")
+}
+
+// subscriber path: an arbitrary published frame through a receive callback of
+// the generated shape: rejected or handled, never a panic.
+func VerifC05_SubscriberCallback() {
+	pf := NewFProtocolFactory(thrift.NewTBinaryProtocolFactoryDefault())
+	calls := 0
+	cb := verifRecv(pf, "op", func(ctx FContext, m *verifMsg) error { calls++; return nil })
+	data := verifBuffer()
+	verifNoPanic("subscriber callback panics", func() {
+		if len(data) >= 4 {
+			_ = cb(&thrift.TMemoryBuffer{Buffer: bytes.NewBuffer(data[4:])})
+		}
+	})
+	good := verifScopeFrame(pf, "op", "x", "h")
+	before := calls
+	verifAssert(cb(&thrift.TMemoryBuffer{Buffer: bytes.NewBuffer(good[4:])}) == nil && calls == before+1, "a later well-formed message is handled")
+	verifReach("end")
+}
+
+func init() {
+	verifHarnesses["VerifC05_MutatedRequest"] = VerifC05_MutatedRequest
+	verifHarnesses["VerifC05_MutatedPublish"] = VerifC05_MutatedPublish
+}
+
+// verifMutate overwrites a window of verifBound() bytes starting at offset
+// verifParam() of a well-formed frame with arbitrary values (every size field,
+// type byte, version byte and string byte of the frame is reached by some
+// window).
+func verifMutate(good []byte) []byte {
+	at, w := verifParam(), verifBound()
+	if at < 0 {
+		at = 0
+	}
+	if w <= 0 {
+		w = 4
+	}
+	at %= len(good) // a window offset past the frame wraps around
+	out := append([]byte{}, good...)
+	win := verifBytes(w, 0)
+	for i := 0; i < w && at+i < len(out); i++ {
+		out[at+i] = win[i]
+	}
+	return out
+}
+
+// a well-formed request with an arbitrary 4-byte window, through the NATS
+// server's processFrame, FBaseProcessor.Process and a processor function of the
+// generated shape: no panic, and the next well-formed request is served.
+func VerifC05_MutatedRequest() {
+	hd := &verifPingHandler{outcome: verifOutcome(verifOutValue, 0)}
+	b := newVerifBroker()
+	srv := NewFNatsServerBuilder(&nats.Conn{}, verifPingProcessor(hd), NewFProtocolFactory(thrift.NewTBinaryProtocolFactoryDefault()), []string{"svc"}).Build().(*fNatsServer)
+	f0 := NewFContext("c0")
+	f0.AddRequestHeader("k", "v")
+	data := verifMutate(prependFrameSize(verifRequestFrame(f0, verifReqKnown, "a")))
+	verifNoPanic("fNatsServer.processFrame panics", func() {
+		_ = srv.processFrame(&frameWrapper{frameBytes: data, reply: "r1", ephemeralProperties: map[interface{}]interface{}{}})
+	})
+	verifAssert(verifReplyCount(b, "r1") <= 1, "at most one reply per request")
+	f := NewFContext("c")
+	good := prependFrameSize(verifRequestFrame(f, verifReqKnown, "a"))
+	verifAssert(srv.processFrame(&frameWrapper{frameBytes: good, reply: "r2", ephemeralProperties: map[interface{}]interface{}{}}) == nil, "a later well-formed request is processed")
+	verifAssert(verifReplyCount(b, "r2") == 1, "and answered")
+	verifReach("end")
+}
+
+// the same for a published message through a receive callback of the generated shape
+func VerifC05_MutatedPublish() {
+	pf := NewFProtocolFactory(thrift.NewTBinaryProtocolFactoryDefault())
+	calls := 0
+	cb := verifRecv(pf, "op", func(ctx FContext, m *verifMsg) error { calls++; return nil })
+	data := verifMutate(verifScopeFrame(pf, "op", "x", "h"))
+	verifNoPanic("subscriber callback panics", func() {
+		_ = cb(&thrift.TMemoryBuffer{Buffer: bytes.NewBuffer(data[4:])})
+	})
+	good := verifScopeFrame(pf, "op", "x", "h")
+	before := calls
+	verifAssert(cb(&thrift.TMemoryBuffer{Buffer: bytes.NewBuffer(good[4:])}) == nil && calls == before+1, "a later well-formed message is handled")
+	verifReach("end")
+}
